@@ -301,6 +301,10 @@ func (c *Converter) ExpandContainerValue(ctx context.Context, p *sdcpb.Path, jv 
 						list = append(list, tvYangType)
 					}
 				default:
+					if x == nil {
+						// JSON null: reflect.TypeOf(nil) is nil
+						return nil, fmt.Errorf("leaflist %s expects array as input, but null was given", np.String())
+					}
 					return nil, fmt.Errorf("leaflist %s expects array as input, but %v of type %v was given", np.String(), x, reflect.TypeOf(x).Name())
 				}
 
